@@ -150,7 +150,7 @@ type prepRec struct {
 	Additional []int64 `json:"additional,omitempty"`
 	OK         bool    `json:"ok"`
 	Anchor     string  `json:"-"`
-	Anchored   int     `json:"anchored"` // 0 not attempted, 1 written, -1 anchor write failed
+	Anchored   int     `json:"anchored"` // 0 not attempted, 1 written, -1 anchor write failed, 2 nothing to anchor (every operation expired)
 }
 
 type anchRec struct {
@@ -226,6 +226,12 @@ func (h *recHandler) PrepareTxnFiles(ops []*operation.QueuedOperation) (*protoco
 		p.Expired = idsOf(info.ExpiredOperations)
 		p.Additional = idsOf(info.AdditionalOperations)
 		p.Anchor = info.AnchorString
+		if info.AnchorString == "" && len(info.ExpiredOperations) == len(ops) {
+			// every operation of the batch was discarded as expired: the handler prepares nothing and the writer
+			// commits the batch without an anchor write
+			p.Anchored = 2
+			h.rec.settled += len(p.Expired)
+		}
 	}
 	h.rec.preps = append(h.rec.preps, p)
 	h.rec.last = p
@@ -582,7 +588,7 @@ func runChild(p params) runResult {
 		if i+1 < len(rec.preps) && len(rec.preps[i+1].IDs) > 0 && byID[rec.preps[i+1].IDs[0]].ver != v0 {
 			res.Boundary++
 		}
-		if pr.OK && pr.Anchored == 1 {
+		if pr.OK && (pr.Anchored == 1 || pr.Anchored == 2) {
 			res.Deferred += len(pr.Additional)
 			for _, id := range pr.Expired {
 				discardedIn[id] = append(discardedIn[id], i)
